@@ -387,8 +387,12 @@ def plan_jobs(kernel_file, harnesses, configs):
             parts = int(cfg.get('parts', 1))
             t = cfg.get('timeout', 120)
             label = cfg.get('label') or ','.join(f'{k}={v}' for k, v in sorted(env.items())) or 'default'
-            main_fn = entry.get('excl') or entry['fn']
-            role = 'excl' if entry.get('excl') else 'main'
+            # the kernel's excl/region harnesses are tied to findings listed as OPEN in known_findings.json; when none of this
+            # obligation's findings is open (all fixed), the unrestricted harness is the obligation again
+            open_ids = {k['id'] for k in chk.load_known() if k.get('status', 'open') == 'open'}
+            any_open = any(fid in open_ids for _, fid in entry.get('regions', []))
+            main_fn = (entry.get('excl') if any_open else None) or entry['fn']
+            role = 'excl' if (entry.get('excl') and any_open) else 'main'
             for p in range(parts):
                 e = dict(env)
                 if parts > 1:
@@ -398,7 +402,7 @@ def plan_jobs(kernel_file, harnesses, configs):
             for tw in entry.get('reach', []):
                 jobs.append(Job(kernel_file, tw, min(t, 300), env=dict(env), tag=f'{ob} [{label}] twin {tw}',
                                 meta={'ob': ob, 'role': 'twin', 'cfg': label}))
-            if ci == 0:
+            if ci == 0 and any_open:
                 for fn, fid in entry.get('regions', []):
                     renv = dict(cfg.get('region_env', env))
                     jobs.append(Job(kernel_file, fn, t, env=renv, tag=f'{ob} [{label}] region {fid}',
